@@ -25,6 +25,22 @@
 (*            32767 / 32768 / 32769 / 49152 / 65535 octets, plus NSEC3 with a    *)
 (*            255-octet salt and a 255-octet hash.  Hex and base64 text is       *)
 (*            longer than the octets it spells: one item of 2 x 65535 chars.     *)
+(*   "lengths" LENGTHS of the blob-valued field: for every type of the "blobs"    *)
+(*            family (but TXT) a record whose hex / base64 / opaque field is      *)
+(*            1..6, 254..257, 511..513, 767..769, 1023..1025, 1535..1537,         *)
+(*            2047..2049, 3072, 4095..4097, 8192 octets: around every multiple of *)
+(*            the word sizes a writer may cut long text into (256, 512, 1024 ...  *)
+(*            octets; 3-octet base64 groups).  A writer that loses, repeats or    *)
+(*            misplaces a word at an exact multiple is seen here.                 *)
+(*   "zone"   SEQUENCES of records: the text of a record is read in a zone, where *)
+(*            other records follow and precede it.  For every type with a         *)
+(*            presentation format the baseline record, and the record with each   *)
+(*            list / blob / string field EMPTY (a text that ENDS EARLY: nothing   *)
+(*            after the last fixed item), in the arrangement X F X X F' (X        *)
+(*            followed by a record of another type and owner, by itself, X last   *)
+(*            but one).  The vector states the octets of every record IN ORDER;   *)
+(*            the harness joins the real String()s with line breaks and reads     *)
+(*            them with the zone parser.                                          *)
 (*   "codes"  type and class code points: TYPEnnn / CLASSnnn, the mnemonic     *)
 (*            where one exists, RFC 3597 generic RDATA (valid RDATA of the     *)
 (*            type for layout types), and the octets the record must pack to   *)
@@ -53,6 +69,18 @@ BlobMsg(t, k) ==
        One1(t, With(es, i, Ramp(n - fixed)))
 MaxNsec3Msg == One1(50, [Hash |-> 1, Flags |-> 1, Iterations |-> 65535, SaltLength |-> 255, Salt |-> Ramp(255), HashLength |-> 255,
                          NextDomain |-> [i \in 1..255 |-> (i * 11) % 256], TypeBitMap |-> [i \in 1..300 |-> i * 218]])
+
+\* lengths of the blob field around the multiples of the sizes text is cut into words at
+LenSizes == <<1, 2, 3, 4, 5, 6, 254, 255, 256, 257, 511, 512, 513, 767, 768, 769, 1023, 1024, 1025, 1535, 1536, 1537, 2047, 2048, 2049,
+              3072, 4095, 4096, 4097, 8192>>
+BlobLenMsg(t, k) == LET es == FieldsOf(t) IN One1(t, With(es, BlobIdx(t), Ramp(LenSizes[k])))
+
+\* sequences of records (a zone)
+EmptyKinds == ListKinds \cup BlobKinds \cup {"str", "octet"}
+Follower(j) == RR(NameWww, 1, 1, Ttl1h, [A |-> <<192, 0, 2, j>>])
+Follower2   == RR(<< <<109, 120>>, <<120>> >>, 15, 1, Ttl1h, [Preference |-> 10, Mx |-> NameWww])        \* mx.x. MX: an owner that spells a type
+ZoneRR(t, i) == LET es == FieldsOf(t) IN RR(Owner, t, 1, Ttl1h, IF i = 0 THEN Fix(es, BaseF(es)) ELSE With(es, i, <<>>))
+ZoneMsg(t, i) == LET x == ZoneRR(t, i) IN Msg(H0, <<>>, << x, Follower(1), x, x, Follower2 >>, <<>>, <<>>)
 
 -----------------------------------------------------------------------------
 TableCodes(tab) == { tab[i][2] : i \in 1..Len(tab) }
@@ -236,11 +264,19 @@ PInit ==
            \/ t = 28 /\ \E j \in 1..(Len(MnemonicTypes) * Len(MnemonicRdata)) : v = <<-6, 0, j>>
   \/ PMode = "blobs" /\ \/ \E x \in 1..Len(BlobTypes), k \in 1..Len(BlobSizes) : InShard(BlobTypes[x] + k) /\ v = <<BlobTypes[x], k>>
                         \/ InShard(0) /\ v = <<50, 0>>
+  \/ PMode = "lengths" /\ \E x \in 1..Len(BlobTypes), k \in 1..Len(LenSizes) : BlobTypes[x] # 16 /\ InShard(x + k) /\ v = <<BlobTypes[x], k>>
+  \/ PMode = "zone" /\ \E x \in 1..Len(PresTypes) :
+        LET t == PresTypes[x]  es == FieldsOf(t) IN
+        /\ InShard(x)
+        /\ \/ v = <<t, 0>>
+           \/ \E i \in 1..Len(es) : es[i].k \in EmptyKinds /\ ~Driven(es, i) /\ WFRR(ZoneRR(t, i)) /\ v = <<t, i>>
   \/ PMode = "codes" /\ \E k \in 1..2 : \E c \in CodeSet : InShard(c) /\ v = <<k, c>>
 PNext == UNCHANGED v
 
 PCase == IF PMode = "c01" THEN Case
          ELSE IF PMode = "blobs" THEN (IF v[2] = 0 THEN MaxNsec3Msg ELSE BlobMsg(v[1], v[2]))
+         ELSE IF PMode = "lengths" THEN BlobLenMsg(v[1], v[2])
+         ELSE IF PMode = "zone" THEN ZoneMsg(v[1], v[2])
          ELSE IF v[1] = 0 THEN OwnerMsg(v[3])
          ELSE IF v[1] = -1 THEN Nsec3Msg(v[3])
          ELSE IF v[1] = -2 THEN CertMsg(v[3])
